@@ -103,12 +103,12 @@ theorem project_nonneg {β : Type} [Field β] [LinearOrder β] [IsStrictOrderedR
 /-- ext: two-step down-sampling equals direct down-sampling (per axis). -/
 theorem hyper_compose (N K n m k : Nat) (hK : K ≤ N) (hn : n ≤ N) (hm : m ≤ n) :
     ∑ j ∈ Finset.range (n + 1), (hyper N K n j : α) * hyper n j m k = hyper N K m k := by
-  sorry
+  exact Sfs.hyper_compose N K n m k hK hn hm
 
 /-- ext: projecting in two steps equals projecting directly. -/
 theorem project_project (a b c d : Arr α) (mid toShape : List Nat) (hlen : a.data.length = size a.shape)
     (h1 : project a mid = .ok b) (h2 : project b toShape = .ok c) (h3 : project a toShape = .ok d) : c = d := by
-  sorry
+  exact Sfs.project_twice a b c d mid toShape hlen h1 h2 h3
 
 /-! non-vacuity: the 7 -> 3 ramp of the test-suite, exactly -/
 example : (project (⟨[0, 1, 2, 3, 4, 5, 6, 7], [8]⟩ : Arr Rat) [4]).toOption.map (·.data)
